@@ -7,7 +7,38 @@ Documentation/filesystems/ext4 and the structure layouts); only field offsets we
 taken from the headers.
 
 Optional accelerator: librefcrc.so next to this file (see refcrc.c), loaded with
-ctypes; when it is absent table-driven pure Python CRCs are used.
+ctypes and self-tested against the pure Python CRCs; when it is absent (or the
+environment has REFEXT4_NO_SO set) table-driven pure Python CRCs are used.
+
+check() judges exactly these invariants (rule names as they appear in Complaint.rule):
+
+ R1.range              a block referenced by an in-use inode lies outside [s_first_data_block, s_blocks_count)
+ R1.overlap_metadata   ... or on a superblock / descriptor / reserved GDT / bitmap / inode table / MMP block
+                       (inode 7 may own reserved GDT blocks, inode 1 may list anything)
+ R1.multiply_claimed   two owners for one block (cluster with bigalloc); xattr blocks may be shared; the
+                       shared_blocks feature switches the rule off
+ R1.xattr_refcount     h_refcount differs from the number of inodes referencing the block
+ R1.metadata_location  a bitmap / inode table / MMP location out of range or colliding
+ R2.block_bitmap, R2.inode_bitmap, R2.block_uninit, R2.inode_uninit, R2.free_blocks_count,
+ R2.free_inodes_count, R2.used_dirs_count, R2.bitmap_padding (last group, up to clusters_per_group only)
+ R3.links, R3.unreachable, R3.dot, R3.dotdot, R3.entry_range, R3.entry_unused, R3.dir_hardlink, R3.root
+ R4.extent (also used for indirect-block loops), R4.dirent, R4.dir_tail, R4.dir_size, R4.i_blocks,
+ R4.htree, R4.htree_hash, R4.htree_unreferenced, R4.xattr, R4.inode, R4.inline_dir, R4.journal, R4.mmp,
+ R4.orphan_file, R4.group_desc, R4.fatal (the walk could not be carried out at all)
+ R5.superblock, R5.group_desc, R5.block_bitmap, R5.inode_bitmap, R5.inode, R5.extent_block, R5.dir_leaf,
+ R5.htree_node, R5.xattr_block, R5.mmp, R5.journal_sb, R5.orphan_file
+
+"In use" is defined without the inode bitmap: an inode is in use when a directory entry reachable from the
+root names it (and its i_links_count and i_mode are non-zero), or it is a reserved inode (< s_first_ino), the
+journal, a quota file, the orphan file, or an EA inode referenced from an attribute.  Slots with a non-zero
+i_links_count, non-zero mode and zero dtime that nobody names are reported as R3.unreachable and still
+counted as owners of their blocks.
+
+Deliberately NOT judged: s_free_blocks_count / s_free_inodes_count, bg_itable_unused, backup superblocks
+and descriptors, the dirent file_type byte, duplicate names, name contents, i_size of regular files,
+timestamps, i_flags sanity, xattr entry/block hashes, xattr value overlap, quota file contents, journal
+contents (nothing is replayed: an image with needs_recovery is judged as it lies on disk), the orphan list,
+name hashes in casefolded / encrypted directories or with the siphash version (index structure is still checked).
 """
 import os
 import struct
@@ -133,8 +164,8 @@ HASH_LEGACY, HASH_HALF_MD4, HASH_TEA = 0, 1, 2
 HASH_LEGACY_UNSIGNED, HASH_HALF_MD4_UNSIGNED, HASH_TEA_UNSIGNED, HASH_SIPHASH = 3, 4, 5, 6
 
 
-def _str2hashbuf(msg, num, unsigned_char):
-    """Pack up to num*4 bytes of msg into num 32-bit words, padded with a length pattern."""
+def _str2hashbuf_slow(msg, num, unsigned_char):
+    """Reference formulation: bytes are added one by one as (possibly signed) chars."""
     ln = len(msg)
     pad = (ln | (ln << 8)) & _M32
     pad = (pad | (pad << 16)) & _M32
@@ -164,52 +195,83 @@ def _str2hashbuf(msg, num, unsigned_char):
     return out
 
 
+def _str2hashbuf(msg, num, unsigned_char):
+    """Pack up to num*4 bytes of msg into num 32-bit words, padded with a length pattern."""
+    ln = len(msg)
+    pad = (ln | (ln << 8)) & _M32
+    pad = (pad | (pad << 16)) & _M32
+    if ln > num * 4:
+        ln = num * 4
+        msg = msg[:ln]
+    if not unsigned_char and not msg.isascii():
+        return _str2hashbuf_slow(msg, num, unsigned_char)
+    # all chars non-negative: whole words are simply big-endian
+    full, rem = divmod(ln, 4)
+    out = list(struct.unpack_from('>%dI' % full, msg, 0))
+    if len(out) < num:
+        if rem:
+            out.append(((pad << (8 * rem)) | int.from_bytes(msg[full * 4:], 'big')) & _M32)
+        else:
+            out.append(pad)
+        while len(out) < num:
+            out.append(pad)
+    return out
+
+
 def _tea(buf, inp):
     b0, b1 = buf[0], buf[1]
     a, b, c, d = inp
     s = 0
+    M = _M32
     for _ in range(16):
-        s = (s + 0x9E3779B9) & _M32
-        b0 = (b0 + ((((b1 << 4) + a) & _M32) ^ ((b1 + s) & _M32) ^ (((b1 >> 5) + b) & _M32))) & _M32
-        b1 = (b1 + ((((b0 << 4) + c) & _M32) ^ ((b0 + s) & _M32) ^ (((b0 >> 5) + d) & _M32))) & _M32
-    buf[0] = (buf[0] + b0) & _M32
-    buf[1] = (buf[1] + b1) & _M32
-
-
-def _rol(x, s):
-    return ((x << s) | (x >> (32 - s))) & _M32
+        s += 0x9E3779B9
+        # masking once per line is enough: xor and + commute with reduction mod 2**32
+        b0 = (b0 + (((b1 << 4) + a) ^ (b1 + s) ^ ((b1 >> 5) + b))) & M
+        b1 = (b1 + (((b0 << 4) + c) ^ (b0 + s) ^ ((b0 >> 5) + d))) & M
+    buf[0] = (buf[0] + b0) & M
+    buf[1] = (buf[1] + b1) & M
 
 
 def _half_md4(buf, inp):
     a, b, c, d = buf
-
-    def F(x, y, z):
-        return z ^ (x & (y ^ z))
-
-    def G(x, y, z):
-        return ((x & y) + ((x ^ y) & z)) & _M32
-
-    def H(x, y, z):
-        return x ^ y ^ z
-    K2, K3 = 0x5A827999, 0x6ED9EBA1
-    r1 = ((0, 3), (1, 7), (2, 11), (3, 19), (4, 3), (5, 7), (6, 11), (7, 19))
-    r2 = ((1, 3), (3, 5), (5, 9), (7, 13), (0, 3), (2, 5), (4, 9), (6, 13))
-    r3 = ((3, 3), (7, 9), (2, 11), (6, 15), (1, 3), (5, 9), (0, 11), (4, 15))
-    for f, k, rr in ((F, 0, r1), (G, K2, r2), (H, K3, r3)):
-        for i, (x, s) in enumerate(rr):
-            # the register roles rotate a,d,c,b
-            if i % 4 == 0:
-                a = _rol((a + f(b, c, d) + inp[x] + k) & _M32, s)
-            elif i % 4 == 1:
-                d = _rol((d + f(a, b, c) + inp[x] + k) & _M32, s)
-            elif i % 4 == 2:
-                c = _rol((c + f(d, a, b) + inp[x] + k) & _M32, s)
-            else:
-                b = _rol((b + f(c, d, a) + inp[x] + k) & _M32, s)
-    buf[0] = (buf[0] + a) & _M32
-    buf[1] = (buf[1] + b) & _M32
-    buf[2] = (buf[2] + c) & _M32
-    buf[3] = (buf[3] + d) & _M32
+    M = _M32
+    i0, i1, i2, i3, i4, i5, i6, i7 = inp
+    # round 1: F(x,y,z) = z ^ (x & (y ^ z)), shifts 3 7 11 19
+    for (x0, x1, x2, x3) in ((i0, i1, i2, i3), (i4, i5, i6, i7)):
+        t = (a + (d ^ (b & (c ^ d))) + x0) & M
+        a = ((t << 3) | (t >> 29)) & M
+        t = (d + (c ^ (a & (b ^ c))) + x1) & M
+        d = ((t << 7) | (t >> 25)) & M
+        t = (c + (b ^ (d & (a ^ b))) + x2) & M
+        c = ((t << 11) | (t >> 21)) & M
+        t = (b + (a ^ (c & (d ^ a))) + x3) & M
+        b = ((t << 19) | (t >> 13)) & M
+    # round 2: G(x,y,z) = (x & y) + ((x ^ y) & z), constant sqrt(2), shifts 3 5 9 13
+    K = 0x5A827999
+    for (x0, x1, x2, x3) in ((i1, i3, i5, i7), (i0, i2, i4, i6)):
+        t = (a + (b & c) + ((b ^ c) & d) + x0 + K) & M
+        a = ((t << 3) | (t >> 29)) & M
+        t = (d + (a & b) + ((a ^ b) & c) + x1 + K) & M
+        d = ((t << 5) | (t >> 27)) & M
+        t = (c + (d & a) + ((d ^ a) & b) + x2 + K) & M
+        c = ((t << 9) | (t >> 23)) & M
+        t = (b + (c & d) + ((c ^ d) & a) + x3 + K) & M
+        b = ((t << 13) | (t >> 19)) & M
+    # round 3: H(x,y,z) = x ^ y ^ z, constant sqrt(3), shifts 3 9 11 15
+    K = 0x6ED9EBA1
+    for (x0, x1, x2, x3) in ((i3, i7, i2, i6), (i1, i5, i0, i4)):
+        t = (a + (b ^ c ^ d) + x0 + K) & M
+        a = ((t << 3) | (t >> 29)) & M
+        t = (d + (a ^ b ^ c) + x1 + K) & M
+        d = ((t << 9) | (t >> 23)) & M
+        t = (c + (d ^ a ^ b) + x2 + K) & M
+        c = ((t << 11) | (t >> 21)) & M
+        t = (b + (c ^ d ^ a) + x3 + K) & M
+        b = ((t << 15) | (t >> 17)) & M
+    buf[0] = (buf[0] + a) & M
+    buf[1] = (buf[1] + b) & M
+    buf[2] = (buf[2] + c) & M
+    buf[3] = (buf[3] + d) & M
 
 
 def _legacy_hash(name, unsigned_char):
@@ -385,14 +447,6 @@ _u16 = struct.Struct('<H').unpack_from
 _u32 = struct.Struct('<I').unpack_from
 _INODE_HEAD = struct.Struct('<HHIIIIIHHII')        # up to i_flags (0x00..0x24)
 _INODE_TAIL = struct.Struct('<IIIIHHHHHH')          # 0x64..0x80
-
-
-def _is_pow(n, base):
-    if n < 1:
-        return False
-    while n % base == 0:
-        n //= base
-    return n == 1
 
 
 class RefFS:
@@ -746,8 +800,7 @@ class RefFS:
         i.mode = mode
         i.uid = uid | (uid_hi << 16)
         i.gid = gid | (gid_hi << 16)
-        fmt = mode & S_IFMT
-        # i_size_high is i_dir_acl on old file systems; the kernel combines it for every type now
+        # i_size_high was i_dir_acl on old file systems; the kernel combines it for every type now
         i.size = size | (size_hi << 32)
         i.atime, i.ctime, i.mtime, i.dtime = atime, ctime, mtime, dtime
         i.links_count = links
@@ -876,9 +929,16 @@ class RefFS:
         """Return ([(lblk, pblk, len, uninit)], [tree block numbers]) for extent- and block-mapped inodes."""
         if not self.has_block_map(inode):
             return [], []
+        ec = self._cache.setdefault('ext', {})
+        hit = ec.get(inode.ino)
+        if hit is not None and hit[0] == inode.i_block and hit[1] == inode.flags:
+            return hit[2]
         if inode.flags & FL_EXTENTS:
-            return self._extent_tree(inode)
-        return self._block_map(inode)
+            r = self._extent_tree(inode)
+        else:
+            r = self._block_map(inode)
+        ec[inode.ino] = (inode.i_block, inode.flags, r)
+        return r
 
     def _extent_tree(self, inode):
         out = []
@@ -1078,10 +1138,7 @@ class RefFS:
     def _inline_data(self, inode):
         """i_block followed by the value of system.data (without trimming to i_size)."""
         d = inode.i_block
-        try:
-            xa = self._xattr_entries(inode)
-        except FormatError:
-            raise
+        xa = self._xattr_entries(inode)
         for e in xa:
             if e['index'] == 7 and e['name'] == b'data':
                 return d + self._xattr_value(inode, e)
@@ -1180,10 +1237,6 @@ class RefFS:
                 if ino:
                     out.append((name, ino, ft, lblk, pos))
         return out
-
-    def dir_hash_info(self, inode):
-        """(hash_version_effective, seed) used for names in this directory, or None when hashes cannot be computed."""
-        return None
 
     def htree(self, inode):
         """Parse the hash tree index of a directory, or return None when it is not indexed.
@@ -1408,7 +1461,7 @@ class RefFS:
         self._cache['tree'] = res
         return res
 
-    def tree_digest(self, include_mtime=True, skip=(b'/lost+found',), max_hash_size=1 << 31):
+    def tree_digest(self, include_mtime=True, skip=(b'/lost+found',), max_hash_size=1 << 28):
         """(hexdigest, {path: record}) - see the module documentation for what a record holds."""
         t = self.tree()
         recs = {}
@@ -1643,7 +1696,11 @@ class RefFS:
                 add('R4.inode_table', 'inode table of group %d beyond the end of the image' % g, ('group', g))
                 continue
             ino = g * ipg
-            for off in range(base, base + ipg * isz, isz):
+            nscan = ipg
+            if self._uses_bg_flags() and not flags[g] & BG_INODE_ZEROED and 0 < gd['bg_itable_unused'] <= ipg:
+                # the tail of a table that was never zeroed holds stale bytes, not inodes
+                nscan = ipg - gd['bg_itable_unused']
+            for off in range(base, base + nscan * isz, isz):
                 ino += 1
                 if data[off + 0x1A] or data[off + 0x1B]:
                     alloc[ino] = self._parse_inode(ino, off)
@@ -1658,7 +1715,6 @@ class RefFS:
         # ---- namespace walk
         counts = res['counts']        # ino -> number of directory entries naming it
         dirinfo = {}                  # dir ino -> parent ino
-        dir_blocks_seen = {}          # dir ino -> [(lblk, pblk, is_index)]
         try:
             root = get_inode(2)
         except FormatError as e:
@@ -1671,7 +1727,6 @@ class RefFS:
         if root is not None:
             dirinfo[2] = 2
             stack.append(root)
-        nent = 0
         icount = self.inodes_count
         while stack:
             di = stack.pop()
@@ -1688,7 +1743,6 @@ class RefFS:
                 add('R3.dotdot', 'directory %d: second entry is not ".." -> %d (found %r)' % (
                     dino, parent, ents[1][:2] if len(ents) > 1 else None), ('inode', dino))
             for k, (name, ino, ft, lblk, off) in enumerate(ents):
-                nent += 1
                 if ino < 1 or ino > icount:
                     add('R3.entry_range', 'directory %d entry %r names inode %d (out of range)' % (dino, name, ino),
                         ('inode', dino))
@@ -1720,7 +1774,6 @@ class RefFS:
 
         # ---- which inodes are in use
         inuse = res['inuse']
-        work = []
         for ino in specials:
             inuse.add(ino)
         for ino in counts:
@@ -1767,6 +1820,7 @@ class RefFS:
             if isz > 128 and (i.extra_isize > isz - 128 or i.extra_isize & 3):
                 add('R4.inode', 'inode %d: i_extra_isize %d invalid' % (ino, i.extra_isize), ('inode', ino))
             blocks = []
+            ea_charge = 0
             fmt = i.mode & S_IFMT
             ext = tree = ()
             mapped_ok = True
@@ -1824,15 +1878,19 @@ class RefFS:
                 for e in xl['ibody'] + xl['block']:
                     if e['value_inum']:
                         ea_refs[e['value_inum']] = ea_refs.get(e['value_inum'], 0) + 1
+                        # the blocks of a value inode are charged to the inode that carries the attribute
+                        vi = alloc.get(e['value_inum'])
+                        if vi is not None:
+                            ea_charge += vi.blocks
             except FormatError as e:
                 add('R1.range' if e.kind == 'range' else 'R4.xattr', str(e), ('inode', ino))
             # i_blocks
-            if mapped_ok and role not in ('badblocks',):
+            if mapped_ok and role != 'badblocks' and not (role == 'resize' and cbits):
                 if cbits:
                     units = len({b >> cbits for b in blocks}) << cbits
                 else:
                     units = len(blocks)
-                expect = units * (bs // 512)
+                expect = units * (bs // 512) + ea_charge
                 if i.blocks != expect:
                     add('R4.i_blocks', 'inode %d: i_blocks %d, owned blocks say %d' % (ino, i.blocks, expect),
                         ('inode', ino))
@@ -1923,7 +1981,6 @@ class RefFS:
                             cl, sorted(s)[:6], m[0], m[1]), ('block', cl << cbits))
 
         # ---- R2 block bitmaps and counts
-        ncl_total = ((self.blocks_count - fdb + (1 << cbits) - 1) >> cbits)
         used = bytearray(self.group_count * cpg)
 
         def cl_index(blk):
@@ -2087,6 +2144,8 @@ class RefFS:
 
     def _check_dir_index(self, i, add):
         ino = i.ino
+        if not self.csum and not (i.flags & FL_INDEX and self.has('dir_index')):
+            return
         dc = self._cache.setdefault('dirparse', {})
         if ino not in dc:
             self._dir_entries_checked(i, add)
@@ -2136,6 +2195,13 @@ class RefFS:
                         ('block', pblk))
         if ht is None:
             return
+        # every block that carries live entries must hang off the index (otherwise lookups cannot find them)
+        referenced = set(index) | {l for (l, _lo, _hi) in ht['leaves']}
+        for (lblk, pblk, buf, ents) in blocks:
+            if lblk not in referenced and any(e[1] for e in ents):
+                add('R4.htree_unreferenced', 'inode %d: dir block %d (lblk %d) has entries but is not referenced by the index' % (
+                    ino, pblk, lblk), ('block', pblk))
+                break
         hv = ht['hash_version']
         if hv == HASH_SIPHASH or i.flags & (FL_CASEFOLD | FL_ENCRYPT):
             return                    # names are not hashed as stored; only the index structure is judged
@@ -2146,6 +2212,8 @@ class RefFS:
                 continue
             pblk, buf, ents = ent
             lo &= ~1
+            if lo == 0 and hi is None:
+                continue              # a single leaf covers the whole hash space
             for (pos, eino, rl, nl, ft, name) in ents:
                 if eino == 0:
                     continue
